@@ -1,4 +1,4 @@
 SPECIFICATION TraceSpec
-INVARIANT I03
+INVARIANT J03
 POSTCONDITION TraceAccepted
 CHECK_DEADLOCK FALSE
